@@ -215,6 +215,421 @@ def emit_stats(t):
 EXTRACTORS = [(extract_sesame, emit_sesame), (extract_stats, emit_stats)]
 
 
+def extract_smoothing(repo):
+    out = dict(smoothConsts=None, smoothingOperators=None)
+    path = os.path.join(repo, "hvsrpy", "smoothing.py")
+    try:
+        with open(path) as f:
+            tree = ast.parse(f.read())
+        src = {n.name: ast.unparse(n) for n in tree.body if isinstance(n, ast.FunctionDef)}
+        c = {}
+        guards = set()
+        for name in ("konno_and_ohmachi", "parzen", "linear_rectangular", "log_rectangular", "linear_triangular", "log_triangular"):
+            guards |= set(re.findall(r"(?:fc|f|np\.abs\(f - fc\)) < " + NUM, src[name]))
+        if len(guards) != 1:
+            raise ValueError("guards")
+        c["guard"] = guards.pop()
+        c["koN"] = grab(src["konno_and_ohmachi"], r"\bn = " + NUM + r"\n")[0]
+        g = grab(src["parzen"], r"a = np\.pi \* " + NUM + r" / \(2 \* " + NUM + r"\)")
+        c["pzA"], c["pzB"] = g
+        c["pzC"] = grab(src["parzen"], r"upper_limit = np\.sqrt\(" + NUM + r"\) \* a / bandwidth")[0]
+        g = grab(src["savitzky_and_golay"], r"\(" + NUM + r" \* m \* m - " + NUM + r" - " + NUM + r" \* abs\(i \* i\)\) / " + NUM)
+        c["sgA"], c["sgB"], c["sgC"], c["sgD"] = g
+        g = grab(src["savitzky_and_golay"], r"m \* \(m \* m - " + NUM + r"\) / " + NUM)
+        c["sgE"], c["sgF"] = g
+        out["smoothConsts"] = {k: dec_pair(v) for k, v in c.items()}
+    except Exception:
+        pass
+    try:
+        out["smoothingOperators"] = module_dict_of_names(path, "SMOOTHING_OPERATORS")
+    except Exception:
+        pass
+    return out
+
+
+def emit_smoothing(t):
+    L = []
+    if t["smoothConsts"] is None:
+        L.append("def smoothConsts : Option (List (String × (Nat × Nat))) := none")
+    else:
+        rows = ", ".join(f'("{k}", {lean_pair(v)})' for k, v in t["smoothConsts"].items())
+        L.append(f"def smoothConsts : Option (List (String × (Nat × Nat))) := some [{rows}]")
+    L.append(lean_str_pairs("smoothingOperators", t["smoothingOperators"]))
+    return L
+
+
+EXTRACTORS.append((extract_smoothing, emit_smoothing))
+
+
+def extract_readers(repo):
+    """C07: reader dispatch table (insertion order of READ_FUNCTION_DICT), the name whose failure read_single re-raises,
+    the source strings of the text-format regular expressions, and the numeric constants of the orientation rules"""
+    out = dict(readDispatch=None, readReraise=None, readerRegex=None, readerConsts=None)
+    path = os.path.join(repo, "hvsrpy", "data_wrangler.py")
+    try:
+        with open(path) as f:
+            text = f.read()
+        tree = ast.parse(text)
+        for node in tree.body:
+            if isinstance(node, ast.Assign) and len(node.targets) == 1 and ast.unparse(node.targets[0]) == "READ_FUNCTION_DICT" \
+                    and isinstance(node.value, ast.Dict):
+                rows = []
+                for k, v in zip(node.value.keys, node.value.values):
+                    if not (isinstance(k, ast.Constant) and isinstance(k.value, str)):
+                        raise ValueError("key")
+                    rows.append((k.value, ast.unparse(v)))
+                out["readDispatch"] = rows          # NOT sorted: the order is the table
+        fn = func_source(tree, "read_single")
+        g = grab(ast.unparse(fn), r"if ftype == '([a-z]+)':\n\s+raise e")
+        if g:
+            out["readReraise"] = g[0]
+        c = {}
+        saf = ast.unparse(func_source(tree, "_read_saf"))
+        c["safHorizCh"] = grab(saf, r"if n_ch == (\d+):")[0]
+        c["safHorizChE"] = grab(saf, r"elif e_ch == (\d+):")[0]
+        c["safEastOffset"] = grab(saf, r"degrees_from_north = north_rot \+ (\d+)\.0\n")[0]
+        peer = ast.unparse(func_source(tree, "_read_peer"))
+        g = grab(peer, r"component_keys_rel\[component_keys_abs > (\d+)\] -= (\d+)")
+        c["peerHalfTurn"], c["peerFullTurn"] = g
+        g = grab(peer, r"float\(degrees_from_north - (\d+) \* \(degrees_from_north // (\d+)\)\)")
+        c["peerMod"], c["peerModDiv"] = g
+        rec = os.path.join(repo, "hvsrpy", "seismic_recording_3c.py")
+        with open(rec) as f:
+            init = ast.unparse(func_source(ast.parse(f.read()), "__init__"))
+        g = grab(init, r"self\.degrees_from_north = float\(degrees_from_north - (\d+) \* \(degrees_from_north // (\d+)\)\)")
+        c["recMod"], c["recModDiv"] = g
+        out["readerConsts"] = [(k, int(v)) for k, v in c.items()]
+    except Exception:
+        pass
+    try:
+        with open(os.path.join(repo, "hvsrpy", "regex.py")) as f:
+            tree = ast.parse(f.read())
+        rows = []
+        flags = {}
+        for node in tree.body:
+            if isinstance(node, ast.Assign) and len(node.targets) == 1 and isinstance(node.targets[0], ast.Name):
+                name = node.targets[0].id
+                if name.endswith("_expr") and name.split("_")[0] in ("saf", "mshark", "peer") and isinstance(node.value, ast.Constant) \
+                        and isinstance(node.value.value, str):
+                    rows.append((name[:-5], node.value.value))
+                if name.endswith("_exec") and name.split("_")[0] in ("saf", "mshark", "peer") and isinstance(node.value, ast.Call):
+                    kw = [ast.unparse(k.value) for k in node.value.keywords if k.arg == "flags"]
+                    flags[name[:-5]] = kw[0] if kw else ""
+        if rows:
+            out["readerRegex"] = [(n, s, flags.get(n, "")) for n, s in rows]
+    except Exception:
+        pass
+    return out
+
+
+def emit_readers(t):
+    def q(s):
+        if any(ord(ch) < 32 or ord(ch) > 126 for ch in s):
+            raise ValueError("non printable")
+        return '"' + s.replace("\\", "\\\\").replace('"', '\\"') + '"'
+    L = []
+    try:
+        rows = None if t["readDispatch"] is None else ", ".join(f"({q(a)}, {q(b)})" for a, b in t["readDispatch"])
+    except ValueError:
+        rows = None
+    L.append("def readDispatch : Option (List (String × String)) := " + ("none" if rows is None else f"some [{rows}]"))
+    L.append("def readReraise : Option String := " + ("none" if t["readReraise"] is None else "some " + q(t["readReraise"])))
+    try:
+        rows = None if t["readerRegex"] is None else ", ".join(f"({q(a)}, {q(b)}, {q(c)})" for a, b, c in t["readerRegex"])
+    except ValueError:
+        rows = None
+    L.append("def readerRegex : Option (List (String × String × String)) := " + ("none" if rows is None else f"some [{rows}]"))
+    rows = None if t["readerConsts"] is None else ", ".join(f"({q(a)}, {b})" for a, b in t["readerConsts"])
+    L.append("def readerConsts : Option (List (String × Nat)) := " + ("none" if rows is None else f"some [{rows}]"))
+    return L
+
+
+EXTRACTORS.append((extract_readers, emit_readers))
+
+
+def extract_processing(repo):
+    out = dict(nextpow2Min=None, nextpow2Cmp=None, nyquistGuard=None, policyNames=None, combineRegister=None,
+               traditionalRegister=None, processingMethods=None)
+    path = os.path.join(repo, "hvsrpy", "processing.py")
+    try:
+        with open(path) as f:
+            tree = ast.parse(f.read())
+        src = {n.name: ast.unparse(n) for n in tree.body if isinstance(n, ast.FunctionDef)}
+    except Exception:
+        return out
+    try:
+        g = grab(src["nextpow2"], r"minimum_power_of_two=(\d+) \*\* (\d+)")
+        out["nextpow2Min"] = (int(g[0]), int(g[1]))
+        out["nextpow2Cmp"] = OPS[grab(src["nextpow2"], r"if power_of_two " + CMP + r" n:")[0]]
+    except Exception:
+        pass
+    try:
+        g1 = grab(src["check_nyquist_frequency"], r"fnyq = 1 / \(" + NUM + r" \* dt\)")
+        g2 = grab(src["check_nyquist_frequency"], r"if max\(fcs\) " + CMP + r" fnyq")
+        out["nyquistGuard"] = (dec_pair(g1[0]), OPS[g2[0]])
+    except Exception:
+        pass
+    try:
+        names = sorted(set(re.findall(r"handle_dissimilar_time_steps_by == '(\w+)'", src["prepare_records_with_inconsistent_dt"])))
+        out["policyNames"] = names or None
+    except Exception:
+        pass
+    for var, key in (("COMBINE_HORIZONTAL_REGISTER", "combineRegister"), ("TRADITIONAL_PROCESSING_REGISTER", "traditionalRegister"),
+                     ("PROCESSING_METHODS", "processingMethods")):
+        try:
+            out[key] = module_dict_of_names(path, var)
+        except Exception:
+            pass
+    return out
+
+
+def emit_processing(t):
+    L = []
+    L.append("def nextpow2Min : Option (Nat × Nat) := " + ("none" if t["nextpow2Min"] is None else f"some ({t['nextpow2Min'][0]}, {t['nextpow2Min'][1]})"))
+    L.append("def nextpow2Cmp : Option Nat := " + ("none" if t["nextpow2Cmp"] is None else f"some {t['nextpow2Cmp']}"))
+    L.append("def nyquistGuard : Option ((Nat × Nat) × Nat) := " + ("none" if t["nyquistGuard"] is None else f"some ({lean_pair(t['nyquistGuard'][0])}, {t['nyquistGuard'][1]})"))
+    L.append("def policyNames : Option (List String) := " + ("none" if t["policyNames"] is None else "some [" + ", ".join(f'"{x}"' for x in t["policyNames"]) + "]"))
+    for key in ("combineRegister", "traditionalRegister", "processingMethods"):
+        L.append(lean_str_pairs(key, t[key]))
+    return L
+
+
+EXTRACTORS.append((extract_processing, emit_processing))
+
+
+def extract_settings(repo):
+    """C15: per concrete settings class the entries of self.attrs with the kind of the default value in the signature
+    (0 immutable, 1 list, 2 ndarray, 3 dict) and how the constructor chain stores the argument (0 alias `self.x = x`,
+    1 shallow copy, 2 np.array(x), 3 deepcopy(x), 4 deepcopy(dict(x))); the dispatch chain of
+    read_settings_object_from_file; the registered values of method_to_combine_horizontals."""
+    out = dict(settingsTable=None, settingsDispatch=None, settingsTraditionalRegister=None)
+    concrete = ["HvsrPreProcessingSettings", "PsdPreProcessingSettings", "PsdProcessingSettings",
+                "HvsrTraditionalProcessingSettings", "HvsrTraditionalSingleAzimuthProcessingSettings",
+                "HvsrTraditionalRotDppProcessingSettings", "HvsrAzimuthalProcessingSettings",
+                "HvsrDiffuseFieldProcessingSettings"]
+
+    def const_like(n):
+        return isinstance(n, (ast.Constant, ast.Name)) or (isinstance(n, ast.UnaryOp) and isinstance(n.operand, ast.Constant))
+
+    def dkind(n):
+        if const_like(n):
+            return 0
+        if isinstance(n, ast.Tuple) and all(const_like(e) for e in n.elts):
+            return 0
+        if isinstance(n, (ast.List, ast.Tuple, ast.Set)):
+            return 1
+        if isinstance(n, ast.Dict) or (isinstance(n, ast.Call) and ast.unparse(n.func) == "dict"):
+            return 3
+        if isinstance(n, ast.Call) and ast.unparse(n.func).startswith(("np.", "numpy.")):
+            return 2
+        raise ValueError("default kind")
+
+    def store_kind(expr):
+        """(parameter name, store code) of the right-hand side of `self.x = ...`"""
+        if isinstance(expr, ast.Name):
+            return expr.id, 0
+        if isinstance(expr, ast.Call):
+            fn = ast.unparse(expr.func)
+            if len(expr.args) == 1 and not expr.keywords:
+                a = expr.args[0]
+                if fn in ("deepcopy", "copy.deepcopy"):
+                    if isinstance(a, ast.Name):
+                        return a.id, 3
+                    if isinstance(a, ast.Call) and ast.unparse(a.func) == "dict" and len(a.args) == 1 and isinstance(a.args[0], ast.Name) \
+                            and not a.keywords:
+                        return a.args[0].id, 4
+                if isinstance(a, ast.Name):
+                    if fn in ("np.array", "numpy.array"):
+                        return a.id, 2
+                    if fn in ("dict", "list", "copy", "copy.copy"):
+                        return a.id, 1
+                    if fn in ("np.asarray", "numpy.asarray", "np.asanyarray"):
+                        return a.id, 0
+            if not expr.args and not expr.keywords and isinstance(expr.func, ast.Attribute) and expr.func.attr == "copy" \
+                    and isinstance(expr.func.value, ast.Name):
+                return expr.func.value.id, 1
+        raise ValueError("store kind")
+
+    try:
+        with open(os.path.join(repo, "hvsrpy", "settings.py")) as f:
+            tree = ast.parse(f.read())
+        classes = {n.name: n for n in tree.body if isinstance(n, ast.ClassDef)}
+
+        def analyze(name):
+            """-> (attrs in order, {attr: (own parameter or None, store code, default node)})"""
+            cls = classes[name]
+            init = [n for n in cls.body if isinstance(n, ast.FunctionDef) and n.name == "__init__"][0]
+            args = init.args
+            if args.vararg or args.kwarg or args.kwonlyargs or args.posonlyargs:
+                raise ValueError("signature")
+            params = [a.arg for a in args.args][1:]
+            if len(args.defaults) != len(params):
+                raise ValueError("defaults")
+            defaults = dict(zip(params, args.defaults))
+            attrs, info = [], {}
+            for st in init.body:
+                if isinstance(st, ast.Expr) and isinstance(st.value, ast.Constant):
+                    continue
+                src = ast.unparse(st)
+                if isinstance(st, ast.Expr) and src.startswith("super().__init__("):
+                    call = st.value
+                    if call.args or len(cls.bases) != 1:
+                        raise ValueError("super call")
+                    battrs, binfo = analyze(ast.unparse(cls.bases[0]))
+                    passed = {}
+                    for kw in call.keywords:
+                        if kw.arg is None or not isinstance(kw.value, ast.Name) or kw.value.id not in defaults:
+                            raise ValueError("super keyword")
+                        passed[kw.arg] = kw.value.id
+                    for a in battrs:
+                        bp, sk, dn = binfo[a]
+                        if bp is not None and bp in passed:
+                            info[a] = (passed[bp], sk, defaults[passed[bp]])
+                        else:
+                            info[a] = (None, sk, dn)
+                    attrs += battrs
+                elif isinstance(st, ast.Assign) and src.startswith("self.attrs = ") and isinstance(st.value, ast.List):
+                    attrs += [e.value for e in st.value.elts]
+                elif isinstance(st, ast.Expr) and src.startswith("self.attrs.extend(") and isinstance(st.value.args[0], ast.List):
+                    attrs += [e.value for e in st.value.args[0].elts]
+                elif isinstance(st, ast.Assign) and len(st.targets) == 1 and isinstance(st.targets[0], ast.Attribute) \
+                        and ast.unparse(st.targets[0].value) == "self":
+                    p, sk = store_kind(st.value)
+                    if p not in defaults:
+                        raise ValueError("source parameter")
+                    info[st.targets[0].attr] = (p, sk, defaults[p])
+                else:
+                    raise ValueError("statement")
+            return attrs, info
+
+        table = []
+        for cn in concrete:
+            attrs, info = analyze(cn)
+            if len(set(attrs)) != len(attrs):
+                raise ValueError("duplicate attrs")
+            rows = []
+            for a in attrs:
+                p, sk, dn = info[a]
+                if p != a:      # every attribute is fed by the constructor parameter of the same name
+                    raise ValueError("attribute/parameter name")
+                rows.append((a, dkind(dn), sk))
+            table.append((cn, rows))
+        out["settingsTable"] = table
+    except Exception:
+        pass
+
+    try:
+        with open(os.path.join(repo, "hvsrpy", "object_io.py")) as f:
+            fn = func_source(ast.parse(f.read()), "read_settings_object_from_file")
+
+        def klass(body):
+            if len(body) == 1 and isinstance(body[0], ast.Assign) and ast.unparse(body[0].targets[0]) == "settings_object" \
+                    and isinstance(body[0].value, ast.Call) and not body[0].value.args and not body[0].value.keywords:
+                return ast.unparse(body[0].value.func)
+            return None
+
+        def is_raise(body):
+            return len(body) == 1 and isinstance(body[0], ast.Raise)
+
+        def test_of(test):
+            """attr_dict['k'] == 'v'  |  attr_dict['k'] in ('v1', 'v2') -> (k, [v..])"""
+            if isinstance(test, ast.Compare) and len(test.ops) == 1 and isinstance(test.left, ast.Subscript) \
+                    and ast.unparse(test.left.value) == "attr_dict" and isinstance(test.left.slice, ast.Constant):
+                k = test.left.slice.value
+                c = test.comparators[0]
+                if isinstance(test.ops[0], ast.Eq) and isinstance(c, ast.Constant):
+                    return k, [c.value]
+                if isinstance(test.ops[0], ast.In) and isinstance(c, (ast.Tuple, ast.List)) and all(isinstance(e, ast.Constant) for e in c.elts):
+                    return k, [e.value for e in c.elts]
+            raise ValueError("test")
+
+        def chain(node):
+            """if/elif chain -> [(key, values, body)], else body"""
+            rows = []
+            while True:
+                k, vs = test_of(node.test)
+                rows.append((k, vs, node.body))
+                if len(node.orelse) == 1 and isinstance(node.orelse[0], ast.If):
+                    node = node.orelse[0]
+                else:
+                    return rows, node.orelse
+
+        top = [n for n in fn.body if isinstance(n, ast.If)]
+        if len(top) != 1:
+            raise ValueError("top")
+        node = top[0]
+        groups = []
+        while True:
+            g = grab(ast.unparse(node.test), r"^'(\w+)' in attr_dict\.keys\(\)$")
+            if g is None or len(node.body) != 1 or not isinstance(node.body[0], ast.If):
+                raise ValueError("group")
+            rows, els = chain(node.body[0])
+            if not is_raise(els):
+                raise ValueError("group else")
+            rules = []
+            for k, vs, body in rows:
+                if k != g[0]:
+                    raise ValueError("group key")
+                c = klass(body)
+                if c is not None:
+                    rules += [(v, c, None) for v in vs]
+                elif len(body) == 1 and isinstance(body[0], ast.If):
+                    srows, sels = chain(body[0])
+                    dflt = klass(sels)
+                    if dflt is None or len({r[0] for r in srows}) != 1:
+                        raise ValueError("sub chain")
+                    alts = []
+                    for k2, vs2, b2 in srows:
+                        c2 = klass(b2)
+                        if c2 is None:
+                            raise ValueError("sub body")
+                        alts += [(v2, c2) for v2 in vs2]
+                    rules += [(v, dflt, (srows[0][0], alts)) for v in vs]
+                else:
+                    raise ValueError("rule body")
+            groups.append((g[0], rules))
+            if len(node.orelse) == 1 and isinstance(node.orelse[0], ast.If):
+                node = node.orelse[0]
+            elif is_raise(node.orelse):
+                break
+            else:
+                raise ValueError("top else")
+        out["settingsDispatch"] = groups
+    except Exception:
+        pass
+
+    try:
+        out["settingsTraditionalRegister"] = module_dict_of_names(os.path.join(repo, "hvsrpy", "processing.py"),
+                                                                  "TRADITIONAL_PROCESSING_REGISTER")
+    except Exception:
+        pass
+    return out
+
+
+def emit_settings(t):
+    L = []
+    ty = "Option (List (String × List (String × Nat × Nat)))"
+    if t["settingsTable"] is None:
+        L.append(f"def settingsTable : {ty} := none")
+    else:
+        rows = ", ".join('("%s", [%s])' % (cn, ", ".join(f'("{a}", {d}, {s})' for a, d, s in ps)) for cn, ps in t["settingsTable"])
+        L.append(f"def settingsTable : {ty} := some [{rows}]")
+    ty = "Option (List (String × List (String × String × String × List (String × String))))"
+    if t["settingsDispatch"] is None:
+        L.append(f"def settingsDispatch : {ty} := none")
+    else:
+        def rule(v, c, sub):
+            s = '"", []' if sub is None else '"%s", [%s]' % (sub[0], ", ".join(f'("{a}", "{b}")' for a, b in sub[1]))
+            return f'("{v}", "{c}", {s})'
+        rows = ", ".join('("%s", [%s])' % (k, ", ".join(rule(*r) for r in rules)) for k, rules in t["settingsDispatch"])
+        L.append(f"def settingsDispatch : {ty} := some [{rows}]")
+    L.append(lean_str_pairs("settingsTraditionalRegister", t["settingsTraditionalRegister"]))
+    return L
+
+
+EXTRACTORS.append((extract_settings, emit_settings))
+
+
 def extract(repo):
     tables = {}
     lines = ["/-! GENERATED by tools/extract_tables.py from the hvsrpy working tree -- do not edit. -/",
